@@ -183,7 +183,7 @@ def check_control(chk, MX, sd, acs, frames, name, cases, descr):
 def check_state(chk, MX, sd, acs, name):
     rng = chk.rng
     H = MX.helpers
-    steps = dict(dx=rng.choice([0.5, 5.0]), dV=0.5, de=0.001, dw=0.01)
+    steps = dict(dx=rng.choice([0.5, 5.0]), dV=rng.choice([0.5, 2.0]), de=rng.choice([0.001, 0.1, 0.1]), dw=rng.choice([0.01, 0.05]))      # also steps far from the defaults
     sc = gen.build_scene(MX, sd, acs)
     out = sc.state_derivatives(aircraft=name, **steps)[name]
     base = gen.build_scene(MX, sd, acs)
@@ -257,7 +257,7 @@ def run(chk):
                     parts = dict(stability=gen.build_scene(MX, sd, acs).stability_derivatives(aircraft=nm, **frames)[nm],
                                  damping=gen.build_scene(MX, sd, acs).damping_derivatives(aircraft=nm, **frames)[nm],
                                  control=gen.build_scene(MX, sd, acs).control_derivatives(aircraft=nm, **frames)[nm])
-                    bad = api.compare(d[nm], parts, rtol=1e-6, atol=1e-8)
+                    bad = api.compare(d[nm], parts, rtol=1e-5, atol=2e-7)      # central differences of solves converged to 1e-10: noise ~ 1e-10 / step
                     if bad or set(d[nm].keys()) != set(parts.keys()):
                         sig, det = "union", dict(differences=bad[:6])
                 # restricted to named aircraft
